@@ -38,6 +38,11 @@ theorem normLin_eval (x : Asg) (l : Lin) : evalLin x (normLin l) = evalLin x l :
     obtain ⟨c, v⟩ := p
     simp only [List.foldr_cons, insTerm_eval, ih, evalLin]
 
+theorem condBody_eval (x : Asg) (l : Lin) : evalLin x (condBody l) = evalLin x l := by
+  unfold condBody; split
+  · exact normLin_eval x l
+  · rfl
+
 theorem scaleLin_eval (x : Asg) (k : Rat) (l : Lin) : evalLin x (scaleLin k l) = k * evalLin x l := by
   induction l with
   | nil => simp [scaleLin, evalLin]
@@ -119,7 +124,6 @@ theorem aff2var_val (n0 : Nat) (p : Lin × Rat) (S : FS) (D : List Def) (x : Asg
     (hpre : (aff2var p S).2.defs <+: D) :
     exactAsg x D (aff2var p S).1 = affVal (exactAsg x D) p := by
   unfold affVal
-  rw [← normLin_eval (exactAsg x D) p.1]
   exact (aff2varL_spec n0 _ _ S).2 D x hwf hpre
 
 
@@ -284,7 +288,7 @@ theorem flatL_spec (n0 : Nat) (l : LE) (S : FS) :
     have h2 := flatN_spec n0 b (flatN a S).2
     obtain ⟨h3, d, hd, hr, hf⟩ := mkDef_spec
       (normCmp (leadNeg ((flatN a S).1.1 ++ negLin (flatN b (flatN a S).2).1.1)) k
-        (normLin ((flatN a S).1.1 ++ negLin (flatN b (flatN a S).2).1.1)) ((flatN b (flatN a S).2).1.2 - (flatN a S).1.2))
+        (condBody ((flatN a S).1.1 ++ negLin (flatN b (flatN a S).2).1.1)) ((flatN b (flatN a S).2).1.2 - (flatN a S).1.2))
       (flatN b (flatN a S).2).2
     refine ⟨by simpa [flatL] using (h1.1.trans h2.1).trans h3, fun D x hwf hpre hv => ?_⟩
     simp only [flatL] at hpre
@@ -293,7 +297,7 @@ theorem flatL_spec (n0 : Nat) (l : LE) (S : FS) :
     have vb := h2.2 D x hwf (h3.trans hpre) hv.2
     have := exact_spec x n0 D hwf d (hpre.subset hd)
     simp only [flatL, LE.eval]
-    rw [← hr, this, hf, normCmp_val, normLin_eval, evalLin_append, evalLin_neg]
+    rw [← hr, this, hf, normCmp_val, condBody_eval, evalLin_append, evalLin_neg]
     simp only [affVal] at va vb
     have := cmp_shift k (a.eval x) (b.eval x) (flatN a S).1.2 (flatN b (flatN a S).2).1.2
       (evalLin (exactAsg x D) (flatN a S).1.1) (evalLin (exactAsg x D) (flatN b (flatN a S).2).1.1) va vb
